@@ -274,6 +274,17 @@ pub fn case_variants(case: &EnvCase) -> Vec<EnvCase> {
         c.flat = false;
         out.push(c);
     }
+    // drop injected history
+    if !case.pre.is_empty() {
+        let mut c = case.clone();
+        c.pre.clear();
+        out.push(c);
+        for i in 0..case.pre.len() {
+            let mut c = case.clone();
+            c.pre.remove(i);
+            out.push(c);
+        }
+    }
     out
 }
 
@@ -281,7 +292,7 @@ pub fn case_size(case: &EnvCase) -> usize {
     let progs: usize = case.programs.values().map(|e| e.size() * 4 + e.render(false).len()).sum();
     let binds: usize = case.bindings.values().map(|v| v.to_string().len() + 2).sum();
     let scripts: usize = case.scripts.values().map(|s| s.len() * 3 + 1).sum();
-    progs + binds + scripts + case.hash_keys.len() * 2 + case.via_json as usize + case.flat as usize + case.threads as usize
+    progs + binds + scripts + case.pre.len() * 5 + case.hash_keys.len() * 2 + case.via_json as usize + case.flat as usize + case.threads as usize
 }
 
 /// Greedy minimisation: repeatedly take the first strictly smaller variant that still fails
